@@ -279,7 +279,7 @@ class Run:
             cov['notes'] = self.notes
         if self.violation_classes:
             cov['violation_classes'] = dict(self.violation_classes)
-            print('violation classes:', self.violation_classes)
+            print('violation classes:', dict(sorted(self.violation_classes.items(), key=lambda kv: -kv[1])[:12]))
         ev = {
             'property_id': self.prop,
             'tier': self.args.tier,
